@@ -259,6 +259,20 @@ def c02_diff(s: str, pre: str, post: str) -> str:
     return ""
 
 
+TOKPOOL = ["g", ";", "\n", "|", "<", ">", "{", "}"]
+TOKCTX = [("register r[1]\n< g ", " g >\n"), ("register r[1]\n{ g ", " g }\n"), ("register r[1]\ng ", " g\n"), ("register r[1]\n<", "g | g >"),
+          ("register r[1]\nloop 2 {", "}\n"), ("register r[1]\n< g | { g ", " } >")]
+
+
+def c02_tokdiff(ctx: int, t0: int, t1: int, t2: int) -> str:
+    """Three tokens chosen by the solver from {gate, ';', newline, '|', '<', '>', '{', '}'} in a hole of a program
+    context, through the real entry point: accepted <=> derivable from the reference grammar (and error positions as in
+    c02_diff).  The text is concrete once the tokens are chosen; it is parsed natively (enumeration-equivalent)."""
+    a, b = TOKCTX[ctx]
+    mid = " ".join(TOKPOOL[t] for t in (t0, t1, t2))
+    return concretely(c02_diff, concrete(mid), a, b)
+
+
 SEPS = [";", "\n", ";\n", "\n\n", " ;  ", "\n//c\n", " /*c*/\n", "/*a*/;/*b*/", ";;", "\n \t\n"]
 PSEPS = ["|", "\n", " | ", "|\n", "\n|", "/*x*/|", "|//y\n", "||"]
 PADS = ["", " ", "\n", "\t", " /*p*/ ", "\n//q\n", ";" ]
